@@ -190,6 +190,23 @@ def gen_cases(tier, seed):
                       'kind': 'lowest', 'space': sp, 'used': used,
                       'n': r.randint(1, 18)})
         k += 1
+    # minimisation of the indices of one tensor (lowest non-target names in the
+    # order of first occurrence; repeated indices; targets kept)
+    for c in range(60 * mult):
+        spin = r.random() < 0.3
+        n = r.randint(1, 6)
+        pool = []
+        for sp in r.sample(['occ', 'virt', 'general'], r.randint(1, 3)):
+            nm = [b + sfx for sfx in ('', '', '1', '2') for b in base[sp][:5]]
+            for x_ in r.sample(nm, r.randint(1, 4)):
+                pool.append(x_ + (':' + r.choice('ab') if spin else ''))
+        idx = [r.choice(pool) for _ in range(n)]
+        tgt = [x_ for x_ in set(idx) if r.random() < 0.25]
+        # further target names that are not on the tensor block low names
+        extra = [x_ for x_ in pool if x_ not in idx and r.random() < 0.3]
+        cases.append({'id': f'C08-{tier[0]}{seed}-{k:05d}-min', 'kind': 'minimize',
+                      'idx': idx, 'targets': sorted(set(tgt + extra))})
+        k += 1
     for h in range(6 * mult):
         cases.append({'id': f'C08-{tier[0]}{seed}-hist{h:03d}', 'kind': 'history',
                       'length': [300, 500, 120, 300, 500, 50][h % 6],
@@ -208,7 +225,71 @@ def run_case(case, res):
         return run_rename(case, res)
     if kind == 'lowest':
         return run_lowest(case, res)
+    if kind == 'minimize':
+        return run_minimize(case, res)
     return run_history(case, res)
+
+
+def run_minimize(case, res):
+    from adcgen.indices import minimize_tensor_indices
+    idx = [ir.mk_index(x) for x in case['idx']]
+    tgt = [ir.mk_index(x) for x in case['targets']]
+    tnames = {}
+    for t in tgt:
+        tnames.setdefault(t.space_and_spin, []).append(t.name)
+    got, perms = lib_call(minimize_tensor_indices, tuple(idx),
+                          {k_: list(v) for k_, v in tnames.items()})
+    res.count('minimize_calls')
+    # oracle: distinct non-target indices get, in the order of first occurrence,
+    # the lowest names of their (space, spin) that are no target names
+    gens, new = {}, {}
+    for s_ in idx:
+        key = s_.space_and_spin
+        if s_ in new:
+            continue
+        if s_.name in tnames.get(key, []):
+            new[s_] = (s_.name, s_.spin)
+            continue
+        if key not in gens:
+            gens[key] = (nm for nm in ir.name_sequence(key[0])
+                         if nm not in tnames.get(key, []))
+        new[s_] = (next(gens[key]), s_.spin)
+    exp = [new[s_] for s_ in idx]
+    gotn = [(s_.name, s_.spin) for s_ in got]
+    res.nontrivial = [(s_.name, s_.spin) for s_ in idx] != exp
+    res.fingerprint = fp('min', [list(new).index(s_) for s_ in idx],
+                         [s_.space_and_spin for s_ in idx],
+                         [s_.name in tnames.get(s_.space_and_spin, [])
+                          for s_ in idx])
+    res.observed = {'idx': case['idx'], 'targets': case['targets'],
+                    'got': [str(s_) for s_ in got], 'perms': str(perms)}
+    if any(a.space_and_spin != b.space_and_spin for a, b in zip(idx, got)):
+        res.violation(f'minimize_tensor_indices({case["idx"]}) changed the space '
+                      f'or spin of a slot: {got}')
+        return
+    if gotn != exp:
+        res.violation(f'minimize_tensor_indices({case["idx"]}, targets '
+                      f'{case["targets"]}) = {[str(s_) for s_ in got]}: not the '
+                      f'lowest non-target names in the order of first occurrence '
+                      f'{exp}')
+        return
+    # the returned transpositions, applied one after another, give the result
+    cur = list(idx)
+    for pq in perms:
+        a, b = pq
+        cur = [b if s_ is a else a if s_ is b else s_ for s_ in cur]
+    if [(s_.name, s_.spin) for s_ in cur] != gotn:
+        res.violation(f'minimize_tensor_indices({case["idx"]}): the returned '
+                      f'permutations {perms} applied one after another give '
+                      f'{[str(s_) for s_ in cur]}, not the returned indices '
+                      f'{[str(s_) for s_ in got]}')
+        return
+    # idempotent
+    again, perms2 = lib_call(minimize_tensor_indices, tuple(got),
+                             {k_: list(v) for k_, v in tnames.items()})
+    if tuple(again) != tuple(got) or len(perms2):
+        res.violation(f'minimize_tensor_indices is not idempotent on {got}: '
+                      f'{again} with {perms2}')
 
 
 def run_lowest(case, res):
